@@ -504,6 +504,8 @@ pub fn main(args: &crate::Args) {
     }
     // pinned witnesses (Lean: P3R.Witness.C11P), replayed on the real AIR on every run
     chain::replay_witnesses(&tabs, &mut hist, &mut violations);
+    // systematic coordinated selector forgeries (every Merkle layout, every selector-like prover cell)
+    tam_evals += chain::selector_sweep(&tabs, &mut hist, &mut violations);
     cases.flush().unwrap();
     implo.flush().unwrap();
     // keep at most 25 replays per class (the counts stay exact)
